@@ -402,13 +402,23 @@ theorem runTW_code (t : TW) (s : List Act) (hw : t.wroteHeader = false) (hto : t
       exact ih _ (by simp [twStep, hw]) (by simp [twStep, hto]) (by simp [twStep, hc]) hcomp
     | panic v => simp [Spec.completes] at hcomp
 
-theorem doneBranch_init (t : TW) :
+theorem twStep_flushed (t : TW) (a : Act) : (twStep t a).1.flushed = t.flushed := by
+  cases a <;> simp only [twStep, TW.writeHeaderLocked] <;> (repeat' split) <;> rfl
+
+theorem runTW_flushed (t : TW) (s : List Act) : (runTW t s).flushed = t.flushed := by
+  induction s generalizing t with
+  | nil => rfl
+  | cons a rest ih =>
+    have e : runTW t (a :: rest) = runTW (twStep t a).1 rest := rfl
+    rw [e, ih, twStep_flushed]
+
+theorem doneBranch_init (t : TW) (hf : t.flushed = false) :
     (doneBranch Rec.init t).code = t.code ∧ (doneBranch Rec.init t).body = t.wbuf ∧
     (doneBranch Rec.init t).snap = some (hmerge [] t.h) := by
   unfold doneBranch Rec.write Rec.writeHeader Rec.init
   by_cases h : t.code = 200
-  · simp [h]
-  · simp [h]
+  · simp [h, hf]
+  · simp [h, hf]
 
 end GoZero.C04
 
